@@ -394,6 +394,29 @@ def c02_binary(a):
         assert close(got, want), f"C02 {m} {a['s1']}x{a['s2']} at {a['p1']} {a['p2']}: got {str(got)[:40]} want {str(want)[:40]}"
 
 
+@check
+def c02_float64(a):
+    """float64 result of the object backend vs the 50-digit result on EXACTLY the same stored binary inputs (well-conditioned operands)"""
+    import vector
+    fam, mp = ctx()
+    st = [float(x) for x in a["stored"]]
+    vf = C.make(C.FLOATFAM, a.get("fl", "g"), tuple(a["sig"]), st)
+    vm = C.make(fam, a.get("fl", "g"), tuple(a["sig"]), [mp.mpf(x) for x in st])
+    args = [float(x) for x in a.get("args", [])]
+    af, am = getattr(vf, a["m"]), getattr(vm, a["m"])
+    rf = af(*args) if callable(af) else af
+    rm = am(*[mp.mpf(x) for x in args]) if callable(am) else am
+    scale = max(1.0, max(abs(x) for x in st))
+    tol = 1e-9 * scale
+    if isinstance(rm, vector.Vector):
+        cf, cm = [float(x) for x in C.stored(rf)], C.stored(rm)
+        assert C.sig_of(rf) == C.sig_of(rm), "float64 and 50-digit results are stored in different systems"
+        bad = [(i, x, str(y)[:22]) for i, (x, y) in enumerate(zip(cf, cm)) if abs(mp.mpf(x) - y) > tol * (1 + abs(y))]
+        assert not bad, f"C02 float64 {a['m']} on {a['sig']} stored {st}: float64 vs exact differ: {bad}"
+    else:
+        assert abs(mp.mpf(float(rf)) - rm) <= tol * (1 + abs(rm)), f"C02 float64 {a['m']} on {a['sig']} stored {st}: {rf} vs {str(rm)[:30]}"
+
+
 def search_c02(seed, tier, limit=5):
     r = C.rng(seed, "c02")
     out, n = [], 0
@@ -420,6 +443,17 @@ def search_c02(seed, tier, limit=5):
                         n += 1
                         run(c02_unary, {"m": "rotate_euler", "sig": list(sig), "p": p, "args": ["0.4", "-1.2", "2.1"],
                                         "order": o.upper() if n % 2 else o}, out, limit)
+            # float64 clause (sampled, never a proof): well-conditioned strata only
+            for p in pts[:3]:
+                st = [repr(x) for x in C.cart_to_stored(sig, [float(x) for x in p])]
+                for m in [u for u in UNARY[dim] if u not in ("neg2D", "neg3D", "neg4D", "rapidity", "gamma", "beta", "tau", "tau2")]:
+                    n += 1
+                    run(c02_float64, {"m": m, "sig": list(sig), "stored": st}, out, limit)
+                for m, args in UNARY_ARGS[dim]:
+                    if isinstance(args, str) or m.startswith("is_"):
+                        continue
+                    n += 1
+                    run(c02_float64, {"m": m, "sig": list(sig), "stored": st, "args": args}, out, limit)
             for s2 in (sigs if tier == "quick" else C.SIGS[dim]):
                 for m in [b for b in BINARY[dim] if not b.startswith("is_") and not b.startswith("boostCM") and not b.startswith("deltaRap")]:
                     if m == "subtract" and sig[-1] == "tau" and s2[-1] == "tau":
